@@ -81,7 +81,6 @@ class ImmutableMixin:
                             int,
                             float,
                             str,
-                            tuple,
                             bool,
                             enum.Enum,
                             ImmutableMixin,
